@@ -1,11 +1,23 @@
 import SaModel.Build.Finish
 import SaModel.Spec.Interp
+import SaModel.Props.C03
+import SaModel.Lemmas.C05Exact
 /-
-C05 — values a column cannot represent are rejected, never silently altered (serializer side).
+C05 — values a column cannot represent are rejected, never silently altered.
 Property theorems about the builder model (SaModel/Build) — every statement is ∀ over values, widths, states.
+
+  per mechanism   integer ranges, null into non-nullable, missing / duplicate fields, fixed-size counts, variants,
+                  offsets, dictionary keys (first part of the file)
+  umbrella        `C05_push_ok_exact` / `C05_interp_undefined_rejected` (one push, any nesting), `C05_toMarrow_ok_exact` /
+                  `C05_toMarrow_undefined_rejected` (whole `to_marrow` run): ok ⇒ the documented value `Spec.interp`
+                  is defined and is what the arrays hold; undefined ⇒ never accepted.  Corollaries of R2 / R3
+                  (Props/C01.lean) and `toMarrow_decode_partial` (Props/C03.lean), with their coverage.
+  lossy cells     `documentedLossy` (float narrowing, int → float, decimal columns from text / floats) and
+                  `C05_only_documented_lossy`: in every other cell `Spec.interpScalar` is the identity on the value
+                  (`Faithful`) or an error; `C05_lossy_cells_alter`: each lossy family does alter a value (witnesses)
 -/
 namespace SaModel.Props.C05
-open SaModel SaModel.Build
+open SaModel SaModel.Build SaModel.Spec
 
 /-- an integer of any source width is accepted by an integer column iff it is in the column's range, and then
 it is stored unchanged (no wrap, no truncation) -/
@@ -233,7 +245,151 @@ theorem dict_key_overflow (ext : Ext) (p : String) (t : IntTy) (v : Validity) (k
     (pushScalar ext (.leaf p (.int t) v keys) (.int .u64 i)).isErr = true := by
   simp [pushScalar, convLeaf, tryInto, h, fail, R.isErr, bind, Except.bind]
 
+/-! ## the umbrella: ok ⇒ exact, undefined ⇒ rejected -/
+
+/-- **ok ⇒ exact (one push).**  If a push of ANY serde value `x` (any nesting) into a builder built for the field
+`(dt, n, md)` succeeds, the documented mapping `Spec.interpDT` is defined on `x` and the builder holds exactly its
+previous rows followed by that value: nothing wrapped, truncated, defaulted or dropped.  Hypotheses are those of R2
+(`Props.C01.push_interp`): the state invariant `WFB`, the schema condition `Safe`, `Shape` (the builder is the one
+`build_builder` makes for the field; covers every family except view types and dictionaries) and `noRaw` (no raw
+key/value call streams inside `x`). -/
+theorem C05_push_ok_exact (ext : Ext) (x : SVal) (b b' : B) (dt : DataType) (n : Bool) (md : Metadata)
+    (hraw : noRaw x = true) (hwf : WFB b) (hsafe : Safe b) (hshape : Shape b dt n md) (h : push ext b x = .ok b') :
+    ∃ lv, interpDT ext dt n md x = .ok lv ∧ dec b' = dec b ++ [lv] := by
+  obtain ⟨_, _, _, lv, hd, hi⟩ := Props.C01.push_interp ext x b b' dt n md hraw hwf hsafe hshape h
+  exact ⟨lv, hi, hd⟩
+
+/-- **undefined ⇒ rejected (one push).**  A value the documented mapping does not define for the field (out of range,
+null for a non-nullable field, missing / duplicate field, wrong count, unknown variant, wrong kind …, at any depth) is
+never accepted. -/
+theorem C05_interp_undefined_rejected (ext : Ext) (x : SVal) (b : B) (dt : DataType) (n : Bool) (md : Metadata)
+    (hraw : noRaw x = true) (hwf : WFB b) (hsafe : Safe b) (hshape : Shape b dt n md)
+    (e : Fail) (hu : interpDT ext dt n md x = .error e) : ∀ b', push ext b x ≠ .ok b' := by
+  intro b' h
+  obtain ⟨lv, hi, _⟩ := C05_push_ok_exact ext x b b' dt n md hraw hwf hsafe hshape h
+  rw [hu] at hi
+  cases hi
+
+/-- the same for a freshly built builder: `Shape`, `WFB` come from `build_builder` -/
+theorem C05_new_interp_undefined_rejected (ext : Ext) (x : SVal) (path : String) (dt : DataType) (n : Bool)
+    (md : Metadata) (b : B) (hc : covered dt = true) (hnew : newDT path dt n md = .ok b) (hsafe : Safe b)
+    (hraw : noRaw x = true) (e : Fail) (hu : interpDT ext dt n md x = .error e) : ∀ b', push ext b x ≠ .ok b' :=
+  C05_interp_undefined_rejected ext x b dt n md hraw (Props.C01.newDT_fresh dt path n md b hnew).1 hsafe
+    (Props.C01.newDT_shape dt path n md b hc hnew) e hu
+
+/-- **ok ⇒ exact (`to_marrow`).**  If `to_marrow` succeeds, EVERY input record has a documented value
+(`interpRow` is defined: every field of every record, at every depth, was representable in its column) and the
+returned arrays decode — Arrow reading rules — to exactly those values: row `i` is the struct whose `j`-th field is
+slot `i` of column `j`.  Hypotheses and coverage are those of `Props.C03.toMarrow_decode_partial`. -/
+theorem C05_toMarrow_ok_exact (ext : Ext) (fields : List Field) (rows : List SVal) (arrs : List Arr)
+    (hmap : ∀ f ∈ fields, Lemmas.C03.Map2F f) (hschema : ∀ f ∈ fields, Lemmas.C03.SchemaOKF f)
+    (hcov : fields.all Build.coveredF = true)
+    (hsafe : ∀ root0, newRoot fields = .ok root0 → Safe root0)
+    (hraw : ∀ x ∈ rows, Build.noRaw x = true)
+    (h : toMarrow ext fields rows = .ok arrs) :
+    (∀ x ∈ rows, ∃ lv, interpRow ext fields x = .ok lv) ∧
+    ∃ cols : List (String × List LVal),
+      arrs.map decodeAll = cols.map (fun c => c.2.map .ok) ∧
+      cols.map (·.1) = fields.map (·.name) ∧
+      (∀ c ∈ cols, c.2.length = rows.length) ∧
+      ∀ (i : Nat) (hi : i < rows.length),
+        interpRow ext fields rows[i] = .ok (.struct (LFields.ofList (cols.map fun c => (c.1, c.2.getD i .null)))) := by
+  obtain ⟨cols, h1, h2, h3, h4⟩ := Props.C03.toMarrow_decode_partial ext fields rows arrs hmap hschema hcov hsafe hraw h
+  refine ⟨?_, cols, h1, h2, h3, h4⟩
+  intro x hx
+  obtain ⟨i, hi, rfl⟩ := List.getElem_of_mem hx
+  exact ⟨_, h4 i hi⟩
+
+/-- **undefined ⇒ rejected (`to_marrow`).**  One record without a documented value anywhere in the batch makes the
+whole call fail: no array is returned.  Needs only the hypotheses of R3 (`Props.C01.runRows_interp`). -/
+theorem C05_toMarrow_undefined_rejected (ext : Ext) (fields : List Field) (rows : List SVal)
+    (hcov : fields.all Build.coveredF = true)
+    (hsafe : ∀ root0, newRoot fields = .ok root0 → Safe root0)
+    (hraw : ∀ x ∈ rows, Build.noRaw x = true)
+    (hu : ∃ (i : Nat) (hi : i < rows.length) (e : Fail), interpRow ext fields rows[i] = .error e) :
+    ∀ arrs, toMarrow ext fields rows ≠ .ok arrs := by
+  intro arrs h
+  obtain ⟨i, hi, e, he⟩ := hu
+  obtain ⟨root, hrun, _⟩ := Props.C03.toMarrow_split ext fields rows arrs h
+  have h0 : ∃ root0, newRoot fields = .ok root0 := by
+    simp only [runRows] at hrun
+    cases hr : newRoot fields with
+    | error e => rw [hr] at hrun; cases hrun
+    | ok r0 => exact ⟨r0, rfl⟩
+  obtain ⟨root0, h0⟩ := h0
+  obtain ⟨hall, _⟩ := Props.C01.runRows_interp ext fields rows root0 root hcov h0 (hsafe root0 h0) hraw hrun
+  obtain ⟨hl, hg⟩ := Props.C03.All2_get hall
+  have := hg i (by rw [hl]; exact hi) hi
+  rw [he] at this
+  cases this
+
+/-! ## the documented lossy cells are the only cells that alter a value
+
+Every leaf of `Spec.interpDT` goes through `Spec.interpScalar` (scalars, the bytes of a binary value presented as a
+list) or is structural (records by name, sequences element by element, `u8All` for bytes given as a sequence:
+`u8_exact` above).  `documentedLossy` (Lemmas/C05Exact.lean) lists the cells (leaf kind of the column, serde scalar call)
+the documentation declares lossy; in every other cell the logical value `interpScalar` defines is the value presented
+(`Faithful`: same number / same float bits or the IEEE widening / same text or `to_string()` of the scalar / same
+bytes / what the temporal codec returns for the text — whose own exactness is C14) or there is no value (error). -/
+
+/-- at the storage level (`convLeaf`: what a leaf builder stores for a scalar call) -/
+theorem C05_leaf_only_documented_lossy (ext : Ext) (k : LeafKind) (x : SVal) :
+    documentedLossy k x = true ∨ (∃ e, convLeaf ext k x = .error e) ∨
+      ∃ w, convLeaf ext k x = .ok w ∧ StoredExact ext k x w := by
+  cases hl : documentedLossy k x with
+  | true => exact .inl rfl
+  | false =>
+    cases hc : convLeaf ext k x with
+    | error e => exact .inr (.inl ⟨e, rfl⟩)
+    | ok w => exact .inr (.inr ⟨w, rfl, convLeaf_exact ext k x w hc hl⟩)
+
+/-- **only the documented cells are lossy** (specification level): for every column type and every scalar call, the
+cell is a documented lossy one, or the mapping is undefined (⇒ rejected, `C05_interp_undefined_rejected`), or the
+logical value is the value presented. -/
+theorem C05_only_documented_lossy (ext : Ext) (dt : DataType) (x : SVal) :
+    documentedLossyDT dt x = true ∨ (∃ e, interpScalar ext dt x = .error e) ∨
+      ∃ lv, interpScalar ext dt x = .ok lv ∧ Faithful ext dt x lv := by
+  cases hl : documentedLossyDT dt x with
+  | true => exact .inl rfl
+  | false =>
+    cases hc : interpScalar ext dt x with
+    | error e => exact .inr (.inl ⟨e, rfl⟩)
+    | ok lv => exact .inr (.inr ⟨lv, rfl, interpScalar_faithful ext dt x lv hc hl⟩)
+
+/-- the exclusion is needed: each documented family does alter a value.  2^24+1 as f32 is 2^24; the f64 nearest to 0.1
+narrowed to f32 and widened back is another f64; 65520 (f32) overflows f16 to +inf. -/
+theorem C05_lossy_cells_alter :
+    documentedLossy .f32 (.int .i64 16777217) = true ∧
+    convLeaf {} .f32 (.int .i64 16777217) = convLeaf {} .f32 (.int .i64 16777216) ∧
+    documentedLossy .f32 (.f64 0x3FB999999999999A) = true ∧
+    (do let w ← convLeaf {} .f32 (.f64 0x3FB999999999999A); convLeaf {} .f64 (.f32 w.toNat)) = .ok 0x3FB99999A0000000 ∧
+    documentedLossy .f16 (.f32 0x477FF000) = true ∧ convLeaf {} .f16 (.f32 0x477FF000) = .ok 0x7C00 := by
+  decide +kernel
+
 /-! ### non-vacuity -/
+
+/-- `C05_push_ok_exact` / `C05_interp_undefined_rejected` on a nested state (`Props.C01.exList`: nullable list of
+non-nullable Int32): an out-of-range element deep in the value has no documented value, and the push is refused -/
+example : (interpDT {} (.list (.mk "element" .int32 false [])) true []
+    (.seq (.cons (.int .i8 5) (.cons (.int .i64 2147483648) .nil)))).isErr = true := by decide +kernel
+example : (push {} Props.C01.exList (.seq (.cons (.int .i8 5) (.cons (.int .i64 2147483648) .nil)))).isErr = true := by
+  decide +kernel
+example : (interpDT {} (.list (.mk "element" .int32 false [])) true []
+    (.seq (.cons (.int .i8 5) (.cons .none .nil)))).isErr = true := by decide +kernel
+
+/-- `C05_toMarrow_undefined_rejected`: the second record misses the non-nullable field `l` -/
+example : (interpRow {} Props.C03.exFields (.record "R" (.cons "a" 0 (.int .i32 1) .nil))).isErr = true := by
+  decide +kernel
+
+/-- faithful cells of every class -/
+example : Faithful {} .int8 (.int .u64 7) (.int 7) := .int (k := .int .i8) rfl rfl
+example : Faithful {} .uint16 (.char 955) (.int 955) := .int (k := .int .u16) rfl rfl
+example : Faithful {} .float64 (.f32 0x3F800000) (.float 0x3FF0000000000000) := by
+  have h := Faithful.widen (ext := {}) 0x3F800000
+  rw [show Float.convert Float.f32 Float.f64 0x3F800000 = 0x3FF0000000000000 from by decide +kernel] at h
+  exact h
+example : interpScalar {} .largeUtf8 (.int .i16 (-12)) = .ok (.str (strBytes "-12")) := by decide +kernel
+
 example : convLeaf {} (.int .i8) (.int .i64 127) = .ok 127 := by decide
 example : (convLeaf {} (.int .i8) (.int .i64 128)).isErr = true := by decide
 example : (convLeaf {} (.int .u8) (.int .i8 (-1))).isErr = true := by decide
